@@ -5,7 +5,7 @@ import copy
 from ..engine import Outcome, Verdict, crash_verdicts, infra_problem, shrink_list
 
 ID = "C15"
-RULE = ("case = operation history (<= 500 ops: set!, update!, update!/default, ref, ref/default, exists?, delete!, size, copy, fold, walk-dump) "
+RULE = ("case = operation history (<= 500 ops: set!, update!, update!/default, ref, ref/default, exists?, delete!, size, copy, merge!, fold, walk-dump; values are numbers and sometimes #f / () / symbols; equal? probes on cyclic and beyond-budget structures that differ in one leaf) "
         "on two SRFI 69 tables of a drawn kind (equal?, eqv?, eq?, string=?+string-hash, user equivalence+hash written in Scheme), keys "
         "drawn so that several regrows and long chains occur and so that equal? keys are built by different computation routes "
         "(bignum arithmetic routes, string literal/append/mutation/substring, quoted vs constructed lists/vectors/bytevectors, flonums "
